@@ -269,38 +269,6 @@ Qed.
 Lemma wf_question_b_spec q : wf_question_b q = wf_question q.
 Proof. destruct q as [e s al|e m g|e k]; destruct e; reflexivity. Qed.
 
-(* under the guard, the subject clause holds of every caller in every run of the wrapper model *)
-Theorem monitor_subject_accepts_model tr w t :
-  wreach tr w ->
-  (forall q, In q (questions tr) -> wf_question q = true /\ guard q = true) ->
-  thread (w_g w) t <> None -> subject_clause tr t = true.
-Proof.
-  intros Hr Hq Ht. pose proof (wreach_erase _ _ Hr) as Hg.
-  pose proof (reach_inv _ _ Hg) as I. pose proof (reach_tinv _ _ Hg) as T. pose proof (reach_sim _ _ Hg) as S.
-  unfold subject_clause, spec_leader. rewrite (sim_lead _ _ S). unfold lead_of.
-  destruct (ti_entered _ _ T _ Ht) as [k Hk]. apply in_erase_enter in Hk as [q [Hin _]].
-  rewrite (wquestion_is_question_of _ _ _ _ Hr Hin).
-  assert (forall c, in_call (w_g w) t c -> thread (w_g w) c <> None ->
-            match question_of tr c with Some ql => subject_eqb (subject_of q) (subject_of ql) | None => false end = true) as Key.
-  { intros c Hic Hc. destruct (ti_entered _ _ T _ Hc) as [kc Hkc]. apply in_erase_enter in Hkc as [qc [Hinc _]].
-    rewrite (wquestion_is_question_of _ _ _ _ Hr Hinc).
-    assert (in_call (w_g w) c c) as Hcc.
-    { unfold in_call in Hic. destruct (thread (w_g w) t) as [[| |x|x y z]|] eqn:E; try contradiction; subst.
-      - unfold in_call. rewrite E. reflexivity.
-      - unfold in_call. rewrite E. reflexivity.
-      - destruct (inv_following _ I _ _ E) as [_ [cl [Hcl _]]]. apply (inv_call _ I _ _ Hcl).
-      - destruct (inv_returned _ I _ _ _ _ E) as [cl [Hcl _]]. apply (inv_call _ I _ _ Hcl). }
-    destruct (Hq _ (in_questions _ _ _ Hin)) as [W1 G1]. destruct (Hq _ (in_questions _ _ _ Hinc)) as [W2 G2].
-    rewrite (merged_same_subject tr w t c c q qc); auto. apply subject_eqb_refl. }
-  destruct (thread (w_g w) t) as [[| |c|c r n]|] eqn:E; try contradiction.
-  - apply Key; [unfold in_call; rewrite E; reflexivity | rewrite E; discriminate].
-  - apply Key; [unfold in_call; rewrite E; reflexivity | rewrite E; discriminate].
-  - apply Key; [unfold in_call; rewrite E; reflexivity|].
-    destruct (inv_following _ I _ _ E) as [_ [cl [Hcl _]]]. apply in_call_some with (c := c). apply (inv_call _ I _ _ Hcl).
-  - apply Key; [unfold in_call; rewrite E; reflexivity|].
-    destruct (inv_returned _ I _ _ _ _ E) as [cl [Hcl _]]. apply in_call_some with (c := c). apply (inv_call _ I _ _ Hcl).
-Qed.
-
 (* the session clause on the model's own prediction: it is true for the caller whose call ran,
    and for a merged caller it says exactly "the execution's update is a no-op on my record" *)
 Theorem monitor_session_on_model tr w t c r n q s0 :
@@ -386,17 +354,32 @@ Proof.
   - eapply wquestion_is_question_of; eauto.
 Qed.
 
-(* a failing subject clause on the model's prediction always carries the C16-K2 signature:
-   the caller's or its leader's question violates the guard *)
+(* a failing subject clause on the model's prediction always carries the signature of C16-K2
+   (the caller's or its leader's question violates the guard) or of C16-K3 (the two passed
+   different allowed groups to one wrapper object) *)
 Theorem monitor_subject_failure_explained tr w t :
   wreach tr w -> (forall q, In q (questions tr) -> wf_question q = true) ->
-  thread (w_g w) t <> None -> guard_clause tr t = true -> subject_clause tr t = true.
+  thread (w_g w) t <> None -> guard_clause tr t = true -> allowed_clause tr t = true -> subject_clause tr t = true.
 Proof.
-  intros Hr Hwf Ht Hg. destruct (clauses_resolve _ _ _ Hr Ht) as [c [q [qc [Hic [Hcc [Hin [Hinc [Hl [Hq Hqc]]]]]]]]].
-  unfold guard_clause in Hg. unfold subject_clause. rewrite Hl, Hq, Hqc in *.
-  apply andb_true_iff in Hg as [G1 G2].
+  intros Hr Hwf Ht Hg Ha. destruct (clauses_resolve _ _ _ Hr Ht) as [c [q [qc [Hic [Hcc [Hin [Hinc [Hl [Hq Hqc]]]]]]]]].
+  unfold guard_clause in Hg. unfold allowed_clause in Ha. unfold subject_clause. rewrite Hl, Hq, Hqc in *.
+  apply andb_true_iff in Hg as [G1 G2]. rewrite Ha, andb_true_r.
   rewrite (merged_same_subject tr w t c c q qc); auto; try apply subject_eqb_refl;
     apply Hwf; eapply in_questions; eauto.
+Qed.
+
+(* under the guard, and when sharers pass the same allowed groups (a deployment: one wrapper
+   object per upstream), the subject clause holds of every caller in every run of the model *)
+Theorem monitor_subject_accepts_model tr w t :
+  wreach tr w ->
+  (forall q, In q (questions tr) -> wf_question q = true /\ guard q = true) ->
+  thread (w_g w) t <> None -> allowed_clause tr t = true -> subject_clause tr t = true.
+Proof.
+  intros Hr Hq Ht Ha. apply (monitor_subject_failure_explained tr w t); auto.
+  - intros q Hin. apply (Hq q Hin).
+  - destruct (clauses_resolve _ _ _ Hr Ht) as [c [q [qc [_ [_ [Hin [Hinc [Hl [Hq1 Hqc]]]]]]]]].
+    unfold guard_clause. rewrite Hl, Hq1, Hqc.
+    destruct (Hq _ (in_questions _ _ _ Hin)) as [_ ->]. destruct (Hq _ (in_questions _ _ _ Hinc)) as [_ ->]. reflexivity.
 Qed.
 
 (* a failing session clause on the model's prediction always carries the C16-K1 signature:
@@ -430,9 +413,101 @@ Theorem monitor_failures_explained tr w t c r n :
   clause_failures_explained tr t (wsession w t) = true.
 Proof.
   intros Hr Hwf Ht. unfold clause_failures_explained. apply andb_true_iff. split.
-  - destruct (guard_clause tr t) eqn:G; [|apply orb_true_r].
+  - destruct (guard_clause tr t) eqn:G; [|rewrite orb_true_r; reflexivity].
+    destruct (allowed_clause tr t) eqn:A; [|apply orb_true_r].
     rewrite (monitor_subject_failure_explained tr w t); auto. rewrite Ht. discriminate.
   - destruct (monitor_session_failure_explained _ _ _ _ _ _ Hr Ht) as [H|[H1 H2]].
     + rewrite H. reflexivity.
     + rewrite H1, H2. apply orb_true_r.
+Qed.
+
+(* ---------- one execution of a key at a time, on the execution log ---------- *)
+Lemma key_of_in {R} (tr : list (event R)) t k :
+  In (Enter t k) tr -> (forall k', In (Enter t k') tr -> k' = k) -> key_of tr t = Some k.
+Proof.
+  induction tr as [|e tr IH]; intros Hin Hu; [destruct Hin|].
+  destruct e as [t0 k0|t0 r0|t0|t0]; simpl.
+  - nateq t0 t.
+    + f_equal. apply Hu. left. reflexivity.
+    + apply IH; [destruct Hin as [Hin|Hin]; [inversion Hin; congruence | exact Hin] | intros k' Hk'; apply Hu; right; exact Hk'].
+  - apply IH; [destruct Hin as [Hin|Hin]; [discriminate | exact Hin] | intros k' Hk'; apply Hu; right; exact Hk'].
+  - apply IH; [destruct Hin as [Hin|Hin]; [discriminate | exact Hin] | intros k' Hk'; apply Hu; right; exact Hk'].
+  - apply IH; [destruct Hin as [Hin|Hin]; [discriminate | exact Hin] | intros k' Hk'; apply Hu; right; exact Hk'].
+Qed.
+
+Lemma model_log_invariant {R} (tr : list (event R)) :
+  forall s l, run_log init [] tr = Some (s, l) ->
+  forall ko, (forall t k, In (Enter t k) tr -> ko t = Some k) ->
+  snd (exec_walk ko l) = true /\ (forall t, In t (fst (exec_walk ko l)) <-> thread s t = Some Leading).
+Proof.
+  induction tr as [|e tr IH] using rev_ind; intros s l H ko Hko.
+  - simpl in H. inversion H; subst. simpl. split; [reflexivity|]. intros t. unfold thread. simpl. split; [tauto | discriminate].
+  - rewrite run_log_snoc in H. destruct (run_log init [] tr) as [[s1 l1]|] eqn:E1; [|discriminate].
+    destruct (step s1 e) as [s'|] eqn:Es; [|discriminate]. inversion H; subst s l. clear H.
+    assert (Hko1 : forall t k, In (Enter t k) tr -> ko t = Some k).
+    { intros t k Hin. apply Hko. apply in_app_iff. left. exact Hin. }
+    destruct (IH _ _ eq_refl ko Hko1) as [Hok Hrun].
+    pose proof (run_log_run _ _ _ _ _ E1) as Hr1. fold (reach tr s1) in Hr1.
+    pose proof (reach_inv _ _ Hr1) as I. pose proof (reach_tinv _ _ Hr1) as T.
+    unfold exec_walk in *. rewrite fold_left_app.
+    destruct (fold_left (exec_step ko) l1 ([], true)) as [running ok] eqn:Ew. cbn [fst snd] in Hok, Hrun. subst ok.
+    apply step_cases in Es. destruct Es.
+    + (* a new execution begins *)
+      unfold log_of, thread. cbn [threads alookup]. rewrite Nat.eqb_refl. cbn [fold_left exec_step fst snd].
+      split.
+      * apply negb_true_iff. destruct (existsb (fun t' => same_key ko t' t) running) eqn:Ex; [|reflexivity]. exfalso.
+        apply existsb_exists in Ex as [t' [Hin' Hsk]]. apply Hrun in Hin'.
+        destruct (inv_leading s1 I _ Hin') as [cl' [Hc' [_ Hfl]]].
+        assert (thread s1 t' <> None) as Hn by (rewrite Hin'; discriminate).
+        destruct (ti_entered _ _ T _ Hn) as [k' Hk'].
+        destruct (ti_enter _ _ T _ _ Hk') as [c [cl [Hic [Hcl Hkey]]]].
+        unfold in_call in Hic. rewrite Hin' in Hic. subst c. rewrite Hc' in Hcl. inversion Hcl; subst cl.
+        unfold same_key in Hsk. rewrite (Hko1 _ _ Hk') in Hsk.
+        rewrite (Hko t k) in Hsk by (apply in_app_iff; right; left; reflexivity).
+        simpl in Hsk. apply str_eqb_eq in Hsk. subst k'. rewrite Hkey in Hfl. rewrite H0 in Hfl. discriminate.
+      * intros t0. cbn [In]. nateq t0 t.
+        -- split; [reflexivity | auto].
+        -- rewrite Hrun. unfold thread. split; [intros [Hx|Hx]; [congruence | exact Hx] | auto].
+    + (* a join: no execution *)
+      unfold log_of, thread. cbn [threads alookup]. rewrite Nat.eqb_refl. cbn [fold_left].
+      split; [reflexivity|]. intros t0. cbn [fst]. rewrite Hrun. unfold thread. nateq t0 t.
+      * unfold thread in H. rewrite H. split; discriminate.
+      * reflexivity.
+    + (* an execution ends *)
+      unfold log_of. cbn [fold_left exec_step fst snd]. split; [reflexivity|].
+      intros t0. rewrite filter_In, Hrun, negb_true_iff. unfold thread. cbn [threads alookup]. nateq t0 t.
+      * split; [intros [_ Hx]; discriminate | discriminate].
+      * split; [intros [Hx _]; exact Hx | auto].
+    + unfold log_of. cbn [fold_left fst snd]. split; [reflexivity|].
+      intros t0. rewrite Hrun. unfold thread. cbn [threads alookup]. nateq t0 t.
+      * unfold thread in H. rewrite H. split; discriminate.
+      * reflexivity.
+    + unfold log_of. cbn [fold_left fst snd]. split; [reflexivity|].
+      intros t0. rewrite Hrun. unfold thread. cbn [threads alookup]. nateq t0 t.
+      * unfold thread in H. rewrite H. split; discriminate.
+      * reflexivity.
+Qed.
+
+(* ONE AT A TIME, on the log: on every accepted event list, the executions the model performs
+   (begin when a caller creates a call and runs fn, end when fn returns) never overlap for a key.
+   This is the monitor's execution clause applied to the model's own prediction. *)
+Theorem model_log_one_at_a_time {R} (tr : list (event R)) s l :
+  run_log init [] tr = Some (s, l) -> exec_ok (key_of tr) l = true.
+Proof.
+  intros H. apply (model_log_invariant tr s l H).
+  intros t k Hin. apply key_of_in; [exact Hin|].
+  intros k' Hin'. eapply entered_once; eauto. eapply run_log_run; eauto.
+Qed.
+
+(* the same for every wrapper object of a deployment: executions per (wrapper object, key) *)
+Theorem wrapper_log_one_at_a_time tr m a s l :
+  mreach tr m -> run_log init [] (map erase (project a tr)) = Some (s, l) ->
+  exec_ok (key_of (map erase (project a tr))) l = true.
+Proof. intros _ H. eapply model_log_one_at_a_time; eauto. Qed.
+
+(* ... and the log exists for every run *)
+Theorem wrapper_log_exists tr m a :
+  mreach tr m -> exists l, run_log init [] (map erase (project a tr)) = Some (w_g (component m a), l).
+Proof.
+  intros H. apply run_run_log. apply wreach_erase. apply mreach_project. exact H.
 Qed.
